@@ -2063,6 +2063,15 @@ impl<C: BgpConfig + Send> Session<C> {
             }
         }
     }
+    /// Which of the timers `tick` polls (keepalive, hold, delay-open) have
+    /// fired and wait for the next `tick`.
+    pub fn verif_timer_ticks_pending(&self) -> [bool; 3] {
+        [
+            self.keepalive_timer.verif_tick_pending(),
+            self.hold_timer.verif_tick_pending(),
+            self.delay_open_timer.verif_tick_pending(),
+        ]
+    }
     /// Detaches the TCP connection without any FSM action.
     pub fn verif_take_connection(&mut self) -> Option<Connection> {
         self.connection.take()
